@@ -1,0 +1,12 @@
+//go:build verif
+
+package bs_java
+
+// Contracts checked by /verif (vcgo). Comment-only: no executable code.
+// C09: state invariant of the bad-smell pass between two callbacks.
+
+//@ invariant fields != nil && localVars != nil && formalParameters != nil
+
+//@ func NewBadSmellListener
+//@ establishes
+//@ modifies *
